@@ -288,7 +288,7 @@ func fillParams(p string) string {
 }
 
 func TestC09(t *testing.T) {
-	vlib.SetRule("C09", "TestC09", "per case one protected port (proxy / upstream / admin) of a real 2-node cluster under one of 7 key configurations (HMAC, RSA, ECDSA, pairs, all three, JWKS file) with or without audience+issuer; the port's gin route table is enumerated through the shim (plus no-route paths, other methods and admin ?forward=) and each request carries a token built from a valid base with 0-2 defects (alg none, wrong key, HS256 signed with the RSA/EC public PEM, key family not configured, tampered header/payload/signature, expired, nbf in the future, wrong/missing aud/iss) placed in Authorization and/or x-piko-authorization (valid shadowed by invalid and vice versa), with Bearer / Basic / empty schemes, or no header; oracle: validity is known by construction; every invalid request gets 401 and the upstream / registry / peer admin behind the route does not observe it; non-trivial = token with exactly one defect, or a valid token shadowed by an invalid one")
+	vlib.SetRule("C09", "TestC09", "per case one protected port (proxy / upstream / admin) of a real 2-node cluster under one of 7 key configurations (HMAC, RSA, ECDSA, pairs, all three, JWKS file) with or without audience+issuer; the port's gin route table is enumerated through the shim (plus no-route paths, other methods and admin ?forward=) and each request carries a token built from a valid base with 0-2 defects (alg none, wrong key, HS256 signed with the RSA/EC public PEM, key family not configured, tampered header/payload/signature, expired, nbf in the future, wrong/missing aud/iss) placed in Authorization and/or x-piko-authorization (valid shadowed by invalid and vice versa), with Bearer / Basic / empty schemes, or no header, optionally naming a tenant (none is configured); oracle: validity is known by construction; every invalid request gets 401 with nothing but the error object in the body, and the upstream / registry / peer admin behind the route does not observe it; non-trivial = token with exactly one defect, or a valid token shadowed by an invalid one")
 	vlib.Run(t, "C09", func(c *vlib.Case) {
 		dir, err := os.MkdirTemp("", "verif-c09-")
 		if err != nil {
@@ -413,6 +413,12 @@ func TestC09(t *testing.T) {
 				req.Header.Set("Authorization", "Bearer"+buildToken(a, drawToken(c, a, true), nil))
 				valid = false
 			}
+			// none of these ports has tenants: naming one makes any credential invalid
+			if c.Chance("namesTenant", 1, 8) {
+				req.Header.Set("x-piko-tenant-id", c.OneOf("tenantName", "t0", "default", "n0"))
+				valid = false
+				c.Class("names-unknown-tenant")
+			}
 			if nontrivial {
 				c.NonTrivial()
 			}
@@ -429,6 +435,13 @@ func TestC09(t *testing.T) {
 			if !valid {
 				if res.Status != 401 {
 					c.Fatalf("C09: %s port (%s%s), %s %s with an INVALID credential (form %s, token %+v) answered %d, want 401", port, a.name, map[bool]string{true: "+aud/iss", false: ""}[a.audience != ""], r.method, r.path, form, sp, res.Status)
+				}
+				// the refusal is the whole answer: nothing a handler wrote may follow it
+				if len(res.Body) > 0 && r.method != "HEAD" {
+					var obj map[string]any
+					if err := json.Unmarshal(res.Body, &obj); err != nil {
+						c.Fatalf("C09: %s %s with an INVALID credential (form %s, token %+v) answered 401 with a body that is not the bare error object (a handler ran after the refusal?): %q", r.method, r.path, form, sp, res.Body)
+					}
 				}
 				if up != nil && up.Served.Load() != servedBefore {
 					c.Fatalf("C09: an unauthenticated request (%s %s, form %s, token %+v) reached the upstream", r.method, r.path, form, sp)
